@@ -73,7 +73,15 @@ func (o Op) Coq() string {
 	case "BatchExecuted":
 		return f("OBatchExecuted", zi(o.C), z(o.H), zi(o.T), z(o.ID))
 	case "BridgeCallMsg":
-		return f("OBridgeCallMsg", zi(o.C), zi(o.A), zi(o.B), toksCoq(o.Toks), z(o.Timeout))
+		// the message carries an sdk.Coins: a zero amount is not representable in it (Coins.Add drops it, Coins.Validate
+		// refuses it), so the operation the application sees has the positive entries only
+		var pos [][2]int64
+		for _, q := range o.Toks {
+			if q[1] > 0 {
+				pos = append(pos, q)
+			}
+		}
+		return f("OBridgeCallMsg", zi(o.C), zi(o.A), zi(o.B), toksCoq(pos), z(o.Timeout))
 	case "BridgeCallResult":
 		return f("OBridgeCallResult", zi(o.C), z(o.ID), lib.Bool(o.Flag))
 	case "BridgeCallIn":
